@@ -224,3 +224,91 @@ def strip_not(test):
                 pol = (not pol) if right.value else pol
                 continue
         return test, pol
+
+
+# ------------------------------------------------------------------ inlining of simple self-helpers
+
+class _Subst(ast.NodeTransformer):
+    def __init__(self, mapping):
+        self.mapping = mapping
+
+    def visit_Name(self, n):
+        if isinstance(n.ctx, ast.Load) and n.id in self.mapping:
+            import copy
+            return copy.deepcopy(self.mapping[n.id])
+        return n
+
+
+def inline_self_helpers(func, cls, model, depth=3):
+    """A copy of func's FunctionDef in which statement-level calls `self.helper(args)` to methods of the same class that contain no
+    `return <value>` are replaced by the helper's body with parameters substituted by the argument expressions (helpers that pass
+    bound methods or fields around are thereby made visible to per-method rules).  Returns (new FunctionDef, [inlined helper names])."""
+    import copy
+    node = copy.deepcopy(func.node)
+    selfn = func.params[0] if func.params else None
+    inlined = []
+
+    def expand(stmts, level):
+        out = []
+        for st in stmts:
+            call = None
+            if isinstance(st, ast.Expr) and isinstance(st.value, ast.Call):
+                call = st.value
+            if call is not None and isinstance(call.func, ast.Attribute) and dotted(call.func.value) == selfn and level < depth:
+                h = model.lookup_method(cls, call.func.attr) if cls is not None else None
+                if h is not None and h is not func and not any(isinstance(x, ast.Return) and x.value is not None for x in walk_shallow(h.node)) \
+                        and not any(isinstance(x, ast.Return) for x in walk_shallow(h.node)) and not h.decorators:
+                    params = h.params[1:]
+                    mapping = {}
+                    okk = True
+                    for i, a in enumerate(call.args):
+                        if i < len(params):
+                            mapping[params[i]] = a
+                    for kw in call.keywords:
+                        if kw.arg:
+                            mapping[kw.arg] = kw.value
+                    # parameters that are rebound inside the helper cannot be substituted
+                    rebound = {t.id for x in walk_shallow(h.node) for t in ast.walk(x) if isinstance(t, ast.Name) and isinstance(t.ctx, ast.Store)}
+                    if rebound & set(mapping):
+                        okk = False
+                    if h.params and h.params[0] != selfn:
+                        mapping[h.params[0]] = ast.Name(id=selfn, ctx=ast.Load())
+                    if okk and set(params) <= set(mapping) | {p for p, d in zip(reversed(params), reversed(h.node.args.defaults))}:
+                        body = [copy.deepcopy(s) for s in h.node.body if not (isinstance(s, ast.Expr) and isinstance(s.value, ast.Constant))]
+                        body = [_Subst(mapping).visit(s) for s in body]
+                        for s in body:
+                            ast.fix_missing_locations(s)
+                        inlined.append(h.name)
+                        out.extend(expand(body, level + 1))
+                        continue
+            for field in ('body', 'orelse', 'finalbody'):
+                if hasattr(st, field) and isinstance(getattr(st, field), list) and not isinstance(st, (ast.FunctionDef, ast.ClassDef)):
+                    setattr(st, field, expand(getattr(st, field), level))
+            if isinstance(st, ast.Try):
+                for hd in st.handlers:
+                    hd.body = expand(hd.body, level)
+            out.append(st)
+        return out
+    node.body = expand(node.body, 0)
+    ast.fix_missing_locations(node)
+    return node, inlined
+
+
+class FuncView:
+    """a Func-like view over a transformed FunctionDef (same identity for reporting)"""
+
+    def __init__(self, func, node):
+        self.__dict__.update(func.__dict__)
+        self._orig = func
+        self.node = node
+
+    @property
+    def owner_class(self):
+        return self._orig.owner_class
+
+    @property
+    def lineno(self):
+        return self.node.lineno
+
+    def site(self, node=None):
+        return self._orig.site(node if node is not None and hasattr(node, 'lineno') else None)
